@@ -156,8 +156,17 @@ func Empty(tpl *gen.Template) (*fix.Message, error) {
 	}
 	m := fix.NewMessage(tpl.Tags.BeginString, tpl.Tags.BodyLength, tpl.Tags.CheckSum, tpl.Tags.MsgType, tpl.Begin, tpl.MsgType)
 	m.SetHeader(fix.NewComponent(NewItems(tpl.Header)...))
-	m.SetBody(NewItems(tpl.Body)...)
-	m.SetTrailer(fix.NewComponent(NewItems(tpl.Trailer)...))
+	// the application's body slice has spare capacity (a table of items from which several
+	// message definitions are cut): nothing may ever be stored beyond the body's own length
+	body := NewItems(tpl.Body)
+	roomy := make(fix.Items, len(body), len(body)+3)
+	copy(roomy, body)
+	m.SetBody(roomy...)
+	tr := NewItems(tpl.Trailer)
+	if tpl.TrailerCS {
+		tr = append(tr, fix.NewKeyValue(tpl.Tags.CheckSum, &fix.String{}))
+	}
+	m.SetTrailer(fix.NewComponent(tr...))
 	return m, nil
 }
 
@@ -227,10 +236,39 @@ func Message(c *gen.Case) (*fix.Message, error) {
 	if err := fill(bodyC{m}, c.Tpl.Body, c.Body); err != nil {
 		return nil, err
 	}
-	if err := fill(compC{m.Trailer()}, c.Tpl.Trailer, c.Trailer); err != nil {
+	if err := fill(itemsC{TrailerItems(m, &c.Tpl)}, c.Tpl.Trailer, c.Trailer); err != nil {
 		return nil, err
 	}
+	if c.Tpl.TrailerCS && c.TrailerCSVal != "" {
+		all := m.Trailer().Items()
+		if kv, ok := all[len(all)-1].(*fix.KeyValue); ok {
+			kv.Set(fix.NewString(c.TrailerCSVal))
+		}
+	}
 	return m, nil
+}
+
+// BeyondBody reports what the library stored in the spare capacity of the body
+// slice Empty handed to SetBody ("" if nothing).
+func BeyondBody(m *fix.Message) string {
+	b := m.Body()
+	full := b[:cap(b)]
+	for i := len(b); i < len(full); i++ {
+		if full[i] != nil {
+			return fmt.Sprintf("slot %d beyond the %d body items now holds %T", i, len(b), full[i])
+		}
+	}
+	return ""
+}
+
+// TrailerItems are the trailer's items the model describes (without the trailer's
+// own CheckSum item of templates with TrailerCS).
+func TrailerItems(m *fix.Message, tpl *gen.Template) fix.Items {
+	it := m.Trailer().Items()
+	if tpl.TrailerCS && tpl.Fix44 == "" && len(it) > 0 {
+		return it[:len(it)-1]
+	}
+	return it
 }
 
 // container is what an application populates: a component (header, trailer,
